@@ -58,7 +58,7 @@ func initWorkDir() {
 }
 
 func cleanupWorkDir() {
-	if workDir != "" {
+	if workDir != "" && os.Getenv("GVC_KEEP") == "" {
 		os.RemoveAll(workDir)
 	}
 }
@@ -74,7 +74,9 @@ func solveSeed(script string, timeoutS int, only string, seed int) solveResult {
 	if err := os.WriteFile(file, []byte(script), 0o644); err != nil {
 		return solveResult{Result: "error", Output: err.Error()}
 	}
-	defer os.Remove(file)
+	if os.Getenv("GVC_KEEP") == "" {
+		defer os.Remove(file)
+	}
 	ctx, cancel := context.WithCancel(context.Background())
 	defer cancel()
 	type one struct {
@@ -108,7 +110,15 @@ func solveSeed(script string, timeoutS int, only string, seed int) solveResult {
 			cmd.Run()
 			dt := time.Since(t0).Seconds()
 			o := out.String()
-			first := strings.TrimSpace(strings.SplitN(o, "\n", 2)[0])
+			first := ""
+			for _, ln := range strings.Split(o, "\n") {
+				ln = strings.TrimSpace(ln)
+				if ln == "" || strings.HasPrefix(ln, "WARNING:") {
+					continue // z3 warns about patterns it drops; the answer follows
+				}
+				first = ln
+				break
+			}
 			res := "unknown"
 			switch {
 			case first == "unsat":
